@@ -94,7 +94,7 @@ PROPS = {
         '"fresh import of the final texts" is well defined; everything else (import, update_key, delete_branch, index, paths, lookups) is real MIR',
         'observations compared after every step, node ids renamed to (note, pre-order ordinal): block / inline backlinks of every key incl. a missing one, '
         'titles, collected trees, outline paths, block at a line (symbolic line)']},
-    'C05': {'specs': [LIB_SPEC, TITLES_SPEC], 'notes': COMMON + [
+    'C05': {'specs': [LIB_SPEC, TITLES_SPEC, SERVER_SPEC], 'notes': COMMON + [
         'oracle: independent scan of the input Documents with the statement\'s resolution rule (relative to the linking note\'s directory, .md ignored, '
         'external URLs excluded); notes in the library root only (sub-directory resolution is string/path code, see not-claimed C15)']},
     'C13': {'specs': [KERNEL_SPEC, LINESTARTS_SPEC, POS_SPEC, POSB_SPEC, SERVER_SPEC, dict(LIB_SPEC, crates=('liwe', 'iwes')), KANI_C13], 'notes': COMMON + [
